@@ -88,10 +88,11 @@ func (h *AnnouncePingHandler) Send(peer netip.Addr) error {
 
 	// Send announcement.
 	err = h.r.sendPingMsg(sendPingOpts{
-		dst:      m.RouterAddress,
-		msgType:  frame.RouterHopPingDeprecated,
-		pingType: announcePingType,
-		pingData: data,
+		dst:        m.RouterAddress,
+		msgType:    frame.RouterHopPingDeprecated,
+		pingType:   announcePingType,
+		pingData:   data,
+		onlyToPeer: peer,
 	})
 	if err != nil {
 		return fmt.Errorf("send ping: %w", err)
